@@ -3,6 +3,7 @@ package sym
 import (
 	"fmt"
 	"go/token"
+	"math"
 	"go/types"
 )
 
@@ -386,15 +387,17 @@ const two53 = uint64(1) << 53
 func symConv(dst types.BasicKind, x sv) value {
 	if dst == types.Float64 {
 		tt := x.T.tt
-		w, _ := kindInfo(x.K)
-		t := tt.Resize(x.T, 64, false)
-		if w == 64 || true {
-			// exact iff 0 <= x < 2^53 (as unsigned 64-bit: covers negatives too)
-			if !tt.i.proves(tt.App("bvult", 0, t, tt.Const(64, two53))) {
-				panic(engineError{"not encodable: symbolic integer -> float64 not provably exact (needs |x| < 2^53)"})
-			}
+		_, signed := kindInfo(x.K)
+		t := tt.Resize(x.T, 64, signed)
+		// exact iff 0 <= x < 2^53 (as unsigned 64-bit: covers negatives too): the cheap integer form
+		if tt.i.proves(tt.App("bvult", 0, t, tt.Const(64, two53))) {
+			return sfloat{t}
 		}
-		return sfloat{t}
+		// otherwise the IEEE-754 conversion (round to nearest even), decided in the solver's floating-point theory
+		if signed {
+			return sfp{tt.App("fp.from_sbv", wFP, t)}
+		}
+		return sfp{tt.App("fp.from_ubv", wFP, t)}
 	}
 	if dst == types.Float32 || dst == types.Complex64 || dst == types.Complex128 {
 		panic(engineError{"not encodable: symbolic integer converted to floating point"})
@@ -412,19 +415,169 @@ func symConv(dst types.BasicKind, x sv) value {
 	return norm(x.T.tt.Resize(x.T, w, signed), dst)
 }
 
-// sfloatMul multiplies an exact-integer symbolic float by a concrete float.
+// sfloatMul multiplies an exact-integer symbolic float by a concrete float:
+// as an integer product when that is provably exact, otherwise as an IEEE-754
+// product in the solver's floating-point theory.
 func sfloatMul(a sfloat, c float64) value {
 	tt := a.T.tt
-	if c != float64(uint64(c)) || c < 0 || c >= float64(two53) {
-		panic(engineError{fmt.Sprintf("not encodable: symbolic float times non-integer constant %v", c)})
+	if c == float64(uint64(c)) && c >= 0 && c < float64(two53) {
+		k := uint64(c)
+		if k == 0 {
+			return float64(0)
+		}
+		lim := two53 / k
+		if tt.i.proves(tt.App("bvult", 0, a.T, tt.Const(64, lim))) {
+			return sfloat{tt.App("bvmul", 64, a.T, tt.Const(64, k))}
+		}
 	}
-	k := uint64(c)
-	if k == 0 {
-		return float64(0)
+	return sfp{tt.App("fp.mul", wFP, fpTerm(tt, a), tt.FConst(c))}
+}
+
+// sfp is a symbolic float64: T has the floating-point sort.
+type sfp struct{ T *Term }
+
+func isFloatSym(x value) bool {
+	switch x.(type) {
+	case sfloat, sfp:
+		return true
 	}
-	lim := two53 / k
-	if !tt.i.proves(tt.App("bvult", 0, a.T, tt.Const(64, lim))) {
-		panic(engineError{"not encodable: symbolic float product not provably exact (< 2^53)"})
+	return false
+}
+
+// fpTerm lifts a float64 value (concrete, exact-integer symbolic, or symbolic) to a floating-point term.
+func fpTerm(tt *termTable, x value) *Term {
+	switch x := x.(type) {
+	case float64:
+		return tt.FConst(x)
+	case sfloat:
+		return tt.App("fp.from_ubv", wFP, x.T) // exact: T < 2^53
+	case sfp:
+		return x.T
 	}
-	return sfloat{tt.App("bvmul", 64, a.T, tt.Const(64, k))}
+	panic(engineError{fmt.Sprintf("not encodable: %T used as a float64", x)})
+}
+
+func fpTable(x, y value) *termTable {
+	for _, v := range []value{x, y} {
+		switch v := v.(type) {
+		case sfloat:
+			return v.T.tt
+		case sfp:
+			return v.T.tt
+		}
+	}
+	return nil
+}
+
+// fpBinop: float64 arithmetic and comparisons with IEEE-754 semantics.
+func fpBinop(op token.Token, x, y value) value {
+	tt := fpTable(x, y)
+	a, b := fpTerm(tt, x), fpTerm(tt, y)
+	switch op {
+	case token.ADD:
+		return sfp{tt.App("fp.add", wFP, a, b)}
+	case token.SUB:
+		return sfp{tt.App("fp.sub", wFP, a, b)}
+	case token.MUL:
+		return sfp{tt.App("fp.mul", wFP, a, b)}
+	case token.QUO:
+		return sfp{tt.App("fp.div", wFP, a, b)}
+	case token.LSS:
+		return norm(tt.App("fp.lt", 0, a, b), types.Bool)
+	case token.LEQ:
+		return norm(tt.App("fp.leq", 0, a, b), types.Bool)
+	case token.GTR:
+		return norm(tt.App("fp.lt", 0, b, a), types.Bool)
+	case token.GEQ:
+		return norm(tt.App("fp.leq", 0, b, a), types.Bool)
+	case token.EQL:
+		return norm(tt.App("fp.eq", 0, a, b), types.Bool)
+	case token.NEQ:
+		return norm(tt.Not(tt.App("fp.eq", 0, a, b)), types.Bool)
+	}
+	panic(engineError{fmt.Sprintf("not encodable: float64 operator %s on a symbolic value", op)})
+}
+
+// fpToInt converts a symbolic float64 to an integer kind (truncation toward
+// zero). Go leaves the result implementation-defined when the value does not
+// fit, so the conversion is only encoded where it provably fits.
+func fpToInt(x sfp, dst types.BasicKind) value {
+	tt := x.T.tt
+	w, signed := kindInfo(dst)
+	var inRange, t *Term
+	if signed {
+		lo := tt.FConst(-float64(uint64(1) << uint(w-1)))
+		hi := tt.FConst(float64(uint64(1) << uint(w-1)))
+		inRange = tt.And(tt.App("fp.leq", 0, lo, x.T), tt.App("fp.lt", 0, x.T, hi))
+		t = tt.App("fp.to_sbv", 64, x.T)
+	} else {
+		hi := tt.FConst(float64(uint64(1)<<uint(w-1)) * 2)
+		inRange = tt.And(tt.App("fp.leq", 0, tt.FConst(0), x.T), tt.App("fp.lt", 0, x.T, hi))
+		t = tt.App("fp.to_ubv", 64, x.T)
+	}
+	if lo, hi, ok := fpInterval(x.T); ok {
+		// decided by interval arithmetic on the host (IEEE operations are monotone, so corner values bound the result)
+		lim := float64(uint64(1)<<uint(w-1)) * 2
+		if !signed && lo >= 0 && hi < lim {
+			return norm(tt.Resize(t, w, signed), dst)
+		}
+		if signed && lo >= -lim/2 && hi < lim/2 {
+			return norm(tt.Resize(t, w, signed), dst)
+		}
+	}
+	if !tt.i.proves(inRange) {
+		panic(engineError{"not encodable: symbolic float64 -> integer conversion not provably in range (implementation-defined in Go)"})
+	}
+	return norm(tt.Resize(t, w, signed), dst)
+}
+
+// fpInterval bounds a floating-point term by evaluating it at the corners of
+// its operands' intervals: conversions and the four rounded operations are
+// monotone in each argument, so the extreme corner values bound the result.
+func fpInterval(t *Term) (lo, hi float64, ok bool) {
+	f := math.Float64frombits
+	corners := func(op func(a, b float64) float64, a, b *Term) (float64, float64, bool) {
+		al, ah, ok1 := fpInterval(a)
+		bl, bh, ok2 := fpInterval(b)
+		if !ok1 || !ok2 {
+			return 0, 0, false
+		}
+		lo, hi := math.Inf(1), math.Inf(-1)
+		for _, x := range []float64{al, ah} {
+			for _, y := range []float64{bl, bh} {
+				v := op(x, y)
+				if math.IsNaN(v) || math.IsInf(v, 0) {
+					return 0, 0, false
+				}
+				lo, hi = math.Min(lo, v), math.Max(hi, v)
+			}
+		}
+		return lo, hi, true
+	}
+	switch t.op {
+	case "const":
+		v := f(t.val)
+		return v, v, !math.IsNaN(v) && !math.IsInf(v, 0)
+	case "fp.from_ubv":
+		return float64(t.args[0].lo), float64(t.args[0].hi), true
+	case "fp.from_sbv":
+		if t.args[0].hi < 1<<63 {
+			return float64(t.args[0].lo), float64(t.args[0].hi), true
+		}
+	case "fp.neg":
+		if l, h, ok := fpInterval(t.args[0]); ok {
+			return -h, -l, true
+		}
+	case "fp.add":
+		return corners(func(a, b float64) float64 { return a + b }, t.args[0], t.args[1])
+	case "fp.sub":
+		return corners(func(a, b float64) float64 { return a - b }, t.args[0], t.args[1])
+	case "fp.mul":
+		return corners(func(a, b float64) float64 { return a * b }, t.args[0], t.args[1])
+	case "fp.div":
+		if bl, bh, ok := fpInterval(t.args[1]); ok && (bl > 0 || bh < 0) {
+			return corners(func(a, b float64) float64 { return a / b }, t.args[0], t.args[1])
+		}
+	}
+	return 0, 0, false
 }
